@@ -299,6 +299,85 @@ func inRouter(c int) *explore.Scenario {
 	}}
 }
 
+// Two messages go through ONE wrapped handler at the same time (a router with concurrent deliveries): the
+// handler, the filter and the poison publisher are places where the other message can get its turn.
+func concurrentScenario(c int) *explore.Scenario {
+	return &explore.Scenario{Name: fmt.Sprintf("standalone/concurrent-messages/c%d", c), C: c, Body: func() {
+		pubFails := vs.Choose(2, 0, "poison publisher") == 1
+		pub := hx.NewScriptPub("poison")
+		pub.Outcome = func(int, string, []*message.Message) hx.PubOutcome {
+			if pubFails {
+				return hx.PubErr
+			}
+			return hx.PubOK
+		}
+		pub.Probe = func(*hx.PubCall) string { vs.Yield(); return "" }
+		mw, err := middleware.PoisonQueueWithFilter(pub, "poison", func(e error) bool { vs.Yield(); return stderrors.Is(e, e1) })
+		if err != nil {
+			vs.Fail("setup", "%v", err)
+			return
+		}
+		results := map[string]string{"a": "e1", "b": []string{"ok1", "e2", "e1"}[vs.Choose(3, 0, "result of the second message")]}
+		h := mw(func(m *message.Message) ([]*message.Message, error) {
+			vs.Yield()
+			return handlerResult(results[m.UUID], m)
+		})
+		type res struct {
+			out []*message.Message
+			err error
+		}
+		got := map[string]res{}
+		var wg vs.WaitGroup
+		for _, id := range []string{"a", "b"} {
+			id := id
+			wg.Add(1)
+			go func() {
+				defer wg.Done()
+				o, e := h(message.NewMessage(id, []byte("payload "+id)))
+				got[id] = res{o, e}
+			}()
+		}
+		wg.Wait()
+		for _, id := range []string{"a", "b"} {
+			cfg := fmt.Sprintf("messages a:%s b:%s handled concurrently (poison publish fails=%v), message %s", results["a"], results["b"], pubFails, id)
+			_, herr := handlerResult(results[id], message.NewMessage(id, nil))
+			published := 0
+			for _, c := range pub.Snapshot() {
+				for _, pm := range c.Msgs {
+					if pm.UUID == id {
+						published++
+						if herr != nil && pm.Metadata.Get(middleware.ReasonForPoisonedKey) != herr.Error() {
+							vs.Fail("poison-metadata", "%s: poisoned with reason %q, its handler failed with %q", cfg, pm.Metadata.Get(middleware.ReasonForPoisonedKey), herr.Error())
+						}
+					}
+				}
+			}
+			r := got[id]
+			switch {
+			case herr == nil:
+				if r.err != nil || len(r.out) != 1 || published != 0 {
+					vs.Fail("passes-through", "%s: success became (%d outputs, %v), %d poison publishes", cfg, len(r.out), r.err, published)
+				}
+			case !stderrors.Is(herr, e1):
+				if r.err != herr || published != 0 {
+					vs.Fail("passes-through", "%s: filtered-out error %v became %v, %d poison publishes", cfg, herr, r.err, published)
+				}
+			default:
+				if published != 1 {
+					vs.Fail("poison-once", "%s: %d publishes to the poison topic", cfg, published)
+				}
+				if pubFails && r.err == nil {
+					vs.Fail("error-kept-when-poison-fails", "%s: poison publish failed but the middleware returned nil", cfg)
+				}
+				if !pubFails && r.err != nil {
+					vs.Fail("success-after-poison", "%s: in the poison topic but the middleware returned %v", cfg, r.err)
+				}
+			}
+		}
+		vs.Note("a:%s b:%s", results["a"], results["b"])
+	}}
+}
+
 // valuesFrom: a context whose cancellation comes from one context and whose values from another (what a
 // context-preserving transport hands to the next consumer).
 type valuesFrom struct {
@@ -366,6 +445,12 @@ func chainedScenario() *explore.Scenario {
 
 func init() {
 	reg.AddW("C13", "router/chained-handlers-context-preserving-transport", reg.Quick, 5, func(t reg.Tier) *explore.Scenario { return chainedScenario() })
+	reg.AddW("C13", "standalone/concurrent-messages/c2", reg.Quick, 10, func(t reg.Tier) *explore.Scenario {
+		if t == reg.Thorough {
+			return concurrentScenario(3)
+		}
+		return concurrentScenario(2)
+	})
 	reg.AddW("C13", "standalone", reg.Quick, 1, func(t reg.Tier) *explore.Scenario { return standalone() })
 	reg.AddW("C13", "standalone/budget-filter-stream", reg.Quick, 1, func(t reg.Tier) *explore.Scenario { return budgetStream() })
 	reg.AddW("C13", "router", reg.Quick, 5, func(t reg.Tier) *explore.Scenario { return inRouter(-1) })
